@@ -416,6 +416,21 @@ func c15Case(m *Model, v *Verdict, rng *RNG, idx int) {
 	}
 }
 
+func last0(creds []ccCred) map[string]ccCred {
+	last := map[string]ccCred{}
+	for _, c := range creds {
+		if strings.HasPrefix(string(c.server.realm), "X-CACHECONF") {
+			continue
+		}
+		var parts []string
+		for _, x := range c.server.comps {
+			parts = append(parts, string(x))
+		}
+		last[strings.Join(parts, "/")] = c
+	}
+	return last
+}
+
 // c15Client: a client built from a cache holds exactly the non-configuration tickets and their keys.
 func c15Client(m *Model, v *Verdict, rng *RNG) {
 	realm := "TEST.GOKRB5"
@@ -484,6 +499,24 @@ func c15Client(m *Model, v *Verdict, rng *RNG) {
 		if err != nil {
 			v.Violate("failing-input", "c15:client-new", "NewFromCCache failed: "+err.Error(), map[string]string{"file": X(file)})
 			continue
+		}
+		// the same cache under a configuration whose default realm is another one (the cache says whose it is)
+		if it%5 == 0 {
+			cfgO, _ := config.NewFromString("[libdefaults]\n default_realm = CORP.EXAMPLE\n[realms]\n CORP.EXAMPLE = {\n kdc = 127.0.0.1:1\n }\n " + realm + " = {\n kdc = 127.0.0.1:1\n }\n")
+			clO, errO := client.NewFromCCache(cc, cfgO)
+			if errO != nil {
+				v.Violate("failing-input", "c15:client-new-other-default-realm", "NewFromCCache fails when the configuration's default realm is not the realm of the cache's principal: "+errO.Error(), map[string]string{"file": X(file)})
+			} else {
+				for spn, c := range last0(mdl.creds) {
+					tkt, key, ok := clO.GetCachedTicket(spn)
+					tb, _ := tkt.Marshal()
+					if !ok || string(tb) != string(c.ticket) || string(key.KeyValue) != string(c.key) {
+						v.Violate("failing-input", "c15:client-holds-other-default-realm", "under a configuration with another default realm the client does not hold the ticket and key written for an SPN", map[string]string{"spn": spn, "file": X(file)})
+						break
+					}
+				}
+				clO.Destroy()
+			}
 		}
 		// the last credential per SPN wins; every non-config credential must be served with its key
 		last := map[string]ccCred{}
